@@ -33,8 +33,11 @@ type caseT struct {
 	Block []specT `json:"block,omitempty"` // block
 
 	// Form: how the real program uses the typed declaration `var c0 T = e` ("" as written, "assign": `var c0 T` and an
-	// assignment statement `c0 = e`, "complit": `var c0 = []T{e}[0]`); the model and the reference see the declaration
+	// assignment statement `c0 = e`, "complit": `var c0 = []T{e}[0]`, "short": `c0 := e` inside main for `var c0 = e`, "iface" / "ifacelocal": `var c0 interface{} = e` at package level / inside main); the model and the reference see the declaration
 	Form string `json:"form,omitempty"`
+
+	// raw: a constant expression as source text (Ctx var | const | short | intuse): real code against go/types only
+	Src string `json:"src,omitempty"`
 }
 
 // outcome is the canonical observable of one case on one side.
@@ -55,7 +58,7 @@ func main() {
 		return
 	}
 	run := common.NewRun("C03")
-	run.Res.Rule = "cases = (integer kind, integer literal) for representableConst — every boundary of every width (min-1, min, max, max+1, ±2^bits, ±(2^bits-1), 2^63.., 2^64..) plus seeded literals up to 2^200 — and generated programs declaring constants from seeded, type-directed expression trees (depth ≤ 6, every constant operator, conversions to every basic type, untyped int/rune/float/bool/string literals up to 2^200 and around the 512-bit limit of the toolchain, shift counts around 512 and 1074, typed zero divisors, typed floating-point shift counts, string(integer expression), comparisons and logical operators; exact constants at, just below and just above the rounding midpoints of float32 and float64 — dyadic rationals as exact decimal literals and as expressions, big integers, long decimal literals — converted to float32 / float64 / complex64 / complex128 and compared by the exact value of the result, i.e. its bit pattern) in the contexts var / const / typed var / typed const / const block with iota and implicit repetition; non-trivial = boundary-distance ≤ 1 or magnitude ≥ 2^8 for repr cases, expression of depth ≥ 2 (or block of ≥ 2 specs) for programs; distinct = distinct protocol line"
+	run.Res.Rule = "cases = (integer kind, integer literal) for representableConst — every boundary of every width (min-1, min, max, max+1, ±2^bits, ±(2^bits-1), 2^63.., 2^64..) plus seeded literals up to 2^200 — and generated programs declaring constants from seeded, type-directed expression trees (depth ≤ 6, every constant operator, conversions to every basic type, untyped int/rune/float/bool/string literals up to 2^200 and around the 512-bit limit of the toolchain, shift counts around 512 and 1074, typed zero divisors, typed floating-point shift counts, string(integer expression), comparisons and logical operators; exact constants at, just below and just above the rounding midpoints of float32 and float64 — dyadic rationals as exact decimal literals and as expressions, big integers, long decimal literals — converted to float32 / float64 / complex64 / complex128 and compared by the exact value of the result, i.e. its bit pattern; constant shifts of untyped floating-point and complex constants of integer value, whose default type is int, observed with %T in package-level, short-declaration and integer-only-use contexts) in the contexts var / const / typed var / typed const / const block with iota and implicit repetition; non-trivial = boundary-distance ≤ 1 or magnitude ≥ 2^8 for repr cases, expression of depth ≥ 2 (or block of ≥ 2 specs) for programs; distinct = distinct protocol line"
 	defer run.Finish()
 	drv, err := common.StartDriver("C03")
 	if err != nil {
@@ -92,7 +95,7 @@ func main() {
 				continue
 			}
 			im, rf := implAll([]caseT{c}, run.Errorf)[0], refOf(c)
-			if c.Kind == "cplx" {
+			if c.Kind == "cplx" || c.Kind == "raw" {
 				run.Res.Known = append(run.Res.Known, common.KnownReplay{ID: f.ID, Status: f.Status, What: f.What, StillFails: !agree(im, rf),
 					Detail: fmt.Sprintf("impl=%s ref=%s", im, rf)})
 				continue
@@ -117,7 +120,7 @@ func main() {
 	{
 		var cx, rest []caseT
 		for _, c := range cases {
-			if c.Kind == "cplx" {
+			if c.Kind == "cplx" || c.Kind == "raw" {
 				cx = append(cx, c)
 			} else {
 				rest = append(rest, c)
@@ -126,12 +129,12 @@ func main() {
 		cases = rest
 		ims := implAll(cx, run.Errorf)
 		for i, c := range cx {
-			rf := refCplx(c)
-			run.Count("cplx "+c.key(), true)
-			run.Hit("cplx:" + c.Type + ":impl=" + bucket(ims[i]))
+			rf := refOf(c)
+			run.Count(c.Kind+" "+c.key(), true)
+			run.Hit(c.Kind + ":" + c.Type + c.Ctx + ":impl=" + bucket(ims[i]))
 			run.Hit("unmodelled")
 			if !agree(ims[i], rf) {
-				run.Disagree(common.Disagreement{Kind: "impl-vs-ref", Input: c, Impl: ims[i], Ref: rf, Note: c.source()})
+				run.Disagree(common.Disagreement{Kind: "impl-vs-ref", Input: c, Impl: ims[i], Ref: rf, Finding: signature(c, nil), Note: c.source()})
 				if os.Getenv("VERIF_C03_DUMP") != "" {
 					fmt.Fprintf(os.Stderr, "DIFF %-60s impl=%-30s ref=%-30s\n", c.source(), ims[i], rf)
 				}
@@ -197,6 +200,11 @@ func main() {
 		if sampled[sk] < 2 && (c.Kind == "repr" && reprNontrivial(c) || c.Kind == "prog" && nontrivial(c) && len(c.source()) > 40 && len(c.source()) < 400) {
 			sampled[sk]++
 			run.Sample(map[string]interface{}{"case": c, "source": c.source(), "impl": im, "model": y, "spec": g, "ref": rf, "class": sig}, 12)
+		}
+		if c.Form == "iface" || c.Form == "ifacelocal" {
+			// an interface destination is a context the Lean model of the interpreter does not describe: the real
+			// code is compared with the reference (and the specification model) only
+			y, yx = "?", "?"
 		}
 		modelled := y != "?"
 		if modelled && !modelSays(y, im) {
